@@ -79,3 +79,118 @@ Proof.
   split; [reflexivity|]. split; [split; [reflexivity|repeat constructor]|].
   repeat split; eexists; eexists; split; try (vm_compute; reflexivity); reflexivity.
 Qed.
+
+(* =====================================================================================================================
+   APPENDED (IsoProofs*.v): SUFFICIENCY — supersedes the "NOT proved" notes above.
+   Vocabulary (IsoProofs0.v): P(x,y) = the unique lc_lexmin walk from x to y (the tree walk of the model's tree of x,
+   C12_tree_is_lexmin); iso_cycle_walk g x w = w is a closed walk from x repeating neither vertex nor edge;
+   iso_rep g wts x w = w is P(x,a) ++ e ++ reversed P(x,b) for an edge e joining a and b (a Horton candidate of the tree
+   of x with differing `first` labels); iso_rot_of g x w y w' = (y,w') is (x,w) started at y instead, possibly reversed;
+   iso_isometric g wts x w = every rotation of w is represented from its start vertex (in one of the two directions);
+   isoa_node_walk g wts trees c x w (IsoProofsA1.v) = w is the closed walk of the node c = (tree x, edge) of the builder's
+   cycle graph.
+     C14_iso_total                  the isometric builder returns a collection: no CdInconsistent (cycle_to_vertex miss),
+                                    no missing tree / node, no fuel exhaustion.
+     C14_iso_component_same_cycle   (Step A) all nodes of one connected component of the cycle graph carry the same cycle
+                                    walk up to rotation and direction, hence the same edge set.
+     C14_iso_isometric_kept         (Steps B', C) every isometric cycle has a candidate in the collection.
+     C14_min_odd_cycle_isometric    (Step D) for every signed edge set, every odd simple cycle has an odd ISOMETRIC
+                                    cycle that is no heavier (well-founded descent in the order weight / edge count /
+                                    vertex set in which the lexicographic shortest paths are least).
+     C14_iso_sufficient             every odd simple cycle is dominated by an odd candidate of the isometric collection.
+     C14_sufficient                 = C14_sufficient_statement: Horton's, every FVS and the isometric collection contain
+                                    a minimum cycle basis.   C14_iso_contains_mcb: for the collection actually returned.
+   FINDING (C14_iso_keeps_non_isometric, IsoProofsX.v; confirmed on the real code): the converse of Steps B'/C is FALSE
+   for the coded partner rule — a component without bad node need not be an isometric cycle: on K4 minus an edge with
+   weights 3 1 2 2 3 the builder keeps a 4-cycle of weight 9 that has a chord shorter than both arcs (it is the sum of
+   two strictly lighter triangles).  The collection is a superset of the isometric cycles (and a subset of Horton's):
+   correctness is unaffected, the collection is merely larger than the theory promises. *)
+From Parmcb Require Import GF2Model LexSPProofsCons1 RefModel TreesProofs3 TreesProofs4
+     IsoProofs0 IsoProofsA1 IsoProofsD2 IsoProofsF1 IsoProofsF2 IsoProofsF3 IsoProofsX.
+
+Theorem C14_iso_total : forall g wts, simple_graph g -> positive_weights g wts ->
+  exists trees cs, iso_cycles_Z g wts = CdOk (trees, cs).
+Proof. exact iso_total. Qed.
+Print Assumptions C14_iso_total.
+
+Theorem C14_iso_component_same_cycle : forall g wts trees allcycles links comp,
+  simple_graph g -> positive_weights g wts ->
+  horton_cycles_Z g wts = CdOk (trees, allcycles) ->
+  let cv := filter (cd_is_circuit Z g trees) allcycles in
+  cd_links Z g trees cv cv = CdOk links ->
+  cd_components (2 * length cv + 2 * length cv + 1) (cd_adj links 0 (map (fun _ => []) (seq 0 (length cv))))
+                (seq 0 (length cv)) (map (fun _ => None) (seq 0 (length cv))) = Some comp ->
+  forall i j k ci cj x w y w',
+    nth i comp None = Some k -> nth j comp None = Some k ->
+    nth_error cv i = Some ci -> nth_error cv j = Some cj ->
+    isoa_node_walk g wts trees ci x w -> isoa_node_walk g wts trees cj y w' ->
+    iso_rot_of g x w y w' /\ Permutation.Permutation (wedges w') (wedges w).
+Proof. exact iso_component_same_cycle. Qed.
+Print Assumptions C14_iso_component_same_cycle.
+
+Theorem C14_iso_isometric_kept : forall g wts trees cs,
+  simple_graph g -> positive_weights g wts -> iso_cycles_Z g wts = CdOk (trees, cs) ->
+  forall x w, iso_cycle_walk g x w -> iso_isometric g wts x w ->
+    exists c t C, In c cs /\ nth_error trees (c_tree c) = Some t /\ c14_cycle g wts t c C /\
+                  Permutation.Permutation C (wedges w).
+Proof. exact iso_isometric_kept. Qed.
+Print Assumptions C14_iso_isometric_kept.
+
+Theorem C14_min_odd_cycle_isometric : forall g wts sg,
+  simple_graph g -> positive_weights g wts ->
+  forall D, simple_cycle g D -> oddb sg D = true ->
+    exists x w, iso_cycle_walk g x w /\ oddb sg (wedges w) = true /\
+                (weight wts (wedges w) <= weight wts D)%Z /\ iso_isometric g wts x w.
+Proof. exact iso_min_odd_cycle_isometric. Qed.
+Print Assumptions C14_min_odd_cycle_isometric.
+
+(* sufficiency from the two halves (kept + Step D), and outright *)
+Theorem C14_iso_sufficient_modulo_kept : forall g wts trees cs,
+  simple_graph g -> positive_weights g wts -> iso_kept_stmt g wts trees cs -> collection_sufficient_all g wts trees cs.
+Proof. exact iso_sufficient_of_kept. Qed.
+Print Assumptions C14_iso_sufficient_modulo_kept.
+
+Theorem C14_iso_sufficient : forall g wts trees cs,
+  simple_graph g -> positive_weights g wts -> iso_cycles_Z g wts = CdOk (trees, cs) ->
+  collection_sufficient_all g wts trees cs.
+Proof. exact iso_sufficient. Qed.
+Print Assumptions C14_iso_sufficient.
+
+Theorem C14_iso_contains_mcb : forall g wts trees cs,
+  simple_graph g -> positive_weights g wts -> iso_cycles_Z g wts = CdOk (trees, cs) ->
+  c14_contains_mcb g wts trees cs.
+Proof. exact isof_iso_contains_mcb. Qed.
+Print Assumptions C14_iso_contains_mcb.
+
+Theorem C14_sufficient : C14_sufficient_statement.
+Proof. exact isof_C14_sufficient. Qed.
+Print Assumptions C14_sufficient.
+
+(* the finding: a kept candidate whose cycle is not isometric (graph isox_g, weights isox_w: K4 minus the edge 0-3) *)
+Theorem C14_iso_keeps_non_isometric :
+  simple_graph isox_g /\ positive_weights isox_g isox_w /\
+  match iso_cycles_Z isox_g isox_w with
+  | CdOk (_, cs) => map (fun c => (c_tree c, c_edge c, c_weight c)) cs = [(0, 2, 6%Z); (0, 3, 9%Z); (1, 0, 7%Z)]
+  | _ => False
+  end /\
+  (* the closed walk of the candidate (root 0, edge 3, weight 9) *)
+  iso_cycle_walk isox_g 0 isox_cw /\ ~ iso_isometric isox_g isox_w 0 isox_cw.
+Proof.
+  split; [exact isox_simple|]. split; [exact isox_pos|]. split; [exact isox_collection|]. exact isox_kept_not_isometric.
+Qed.
+Print Assumptions C14_iso_keeps_non_isometric.
+
+(* non-vacuity: on K4 with unit weights (c14_ex_g) an odd isometric cycle walk exists for the signed set {edge 0} *)
+Example C14_iso_nonvacuous :
+  exists x w, iso_cycle_walk c14_ex_g x w /\ oddb [0] (wedges w) = true /\ iso_isometric c14_ex_g c14_ex_w x w.
+Proof.
+  assert (Hsg : simple_graph c14_ex_g) by reflexivity.
+  assert (Hpos : positive_weights c14_ex_g c14_ex_w) by (split; [reflexivity|repeat constructor]).
+  assert (HD : simple_cycle c14_ex_g [0; 1; 4]).
+  { split; [discriminate|]. split; [repeat constructor|]. exists 0, [(0, 1); (1, 2); (4, 0)].
+    split; [apply RefProofs1.rf_walkb_walk; reflexivity|].
+    split; [repeat constructor; cbn [In]; intuition discriminate|].
+    split; [repeat constructor; cbn [In]; intuition discriminate|]. intros e. reflexivity. }
+  destruct (C14_min_odd_cycle_isometric c14_ex_g c14_ex_w [0] Hsg Hpos [0; 1; 4] HD eq_refl) as (x & w & H1 & H2 & _ & H3).
+  exists x, w. auto.
+Qed.
